@@ -94,7 +94,7 @@ func sandboxStream(sum *Summary, model *vd.Model, n int, seed int64) {
 	self, _ := os.Executable()
 	rng := rand.New(rand.NewSource(seed))
 	kinds := []string{"valid", "valid", "valid", "valid", "valid", "valid", "valid", "valid", "valid", "valid", "missing", "directory", "malformed", "wrong-type", "unknown-action", "unknown-syscall", "unknown-operation",
-		"empty-syscalls", "oversize", "no-command", "no-seccomp-key", "bad-argument-index"}
+		"empty-syscalls", "oversize", "no-command", "no-seccomp-key", "bad-argument-index", "no-arguments-key", "empty-arguments"}
 	for i := 0; i < n; i++ {
 		kind := kinds[rng.Intn(len(kinds))]
 		c := genDecide(rng)
@@ -133,6 +133,10 @@ func sandboxStream(sum *Summary, model *vd.Model, n int, seed int64) {
 			yml += "  - action: errno\n    names_with_args:\n    - name: getegid\n      arguments:\n      - argument: 0\n        operation: Equals\n        value: 1\n"
 		case "bad-argument-index":
 			yml += "  - action: errno\n    names_with_args:\n    - name: getegid\n      arguments:\n      - argument: 6\n        operation: Equal\n        value: 1\n"
+		case "no-arguments-key":
+			yml += "  - action: errno\n    names_with_args:\n    - name: getegid\n"
+		case "empty-arguments":
+			yml += "  - action: errno\n    names_with_args:\n    - name: getegid\n      arguments: []\n"
 		case "empty-syscalls":
 			yml = "seccomp:\n  default_action: allow\n  syscalls: []\n"
 		case "no-seccomp-key":
